@@ -53,6 +53,20 @@ Theorem C07_never_ends_joined : forall cf t w v w' v' res es,
   forall rep, ~ In (EReq (QCommit (g_xid v)) rep) es /\ ~ In (EReq (QRollback (g_xid v)) rep) es.
 Proof. exact go_c07_never_ends_joined. Qed.
 
+(* under ANY coordinator behaviour, retry setting and cancellation: every commit/rollback a
+   program sends names a transaction the program itself began (an xid the coordinator handed
+   out during the run); in particular never the transaction that was current on entry *)
+Theorem C07_ends_only_own : forall cf t w v w' v' res es,
+  run_scope go_shape cf t w v = (w', v', res, es) ->
+  w_next w <= w_next w' /\ xid_range (w_next w) (w_next w') (sp_xids es).
+Proof. exact go_c07_ends_only_own. Qed.
+
+Theorem C07_never_ends_joined_any_coordinator : forall cf t w v w' v' res es,
+  g_xid v < w_next w ->
+  run_scope go_shape cf t w v = (w', v', res, es) ->
+  ~ In (g_xid v) (sp_xids es).
+Proof. exact go_c07_never_ends_joined_any. Qed.
+
 (* the defect that was repaired: without the restore the very same model loses the outer commit *)
 Theorem C07_without_restore_refuted :
   let '(_, v', _, es) := run_scope unrestored_shape {| cf_commit_retry := 2; cf_rollback_retry := 2 |}
